@@ -283,6 +283,41 @@ func (c *Ctx) checkThriftStruct(rule, short, typ string) {
 				if !elemOK || !endOK {
 					fail(fd.Pos(), ":"+name, "the list reader does not read every element followed by the list end")
 				}
+				// every element is decoded into a value that is fresh for that iteration: `_elem := T{}`
+				// as a statement of the loop body (fields absent on the wire must come out zero, not as
+				// the previous element's)
+				freshElem := false
+				ast.Inspect(fd.Body, func(nd ast.Node) bool {
+					fs, isFor := nd.(*ast.ForStmt)
+					if !isFor {
+						return true
+					}
+					for _, st := range fs.Body.List {
+						as, isAs := st.(*ast.AssignStmt)
+						if !isAs || as.Tok != token.DEFINE || len(as.Lhs) != 1 || len(as.Rhs) != 1 {
+							continue
+						}
+						if _, isCL := as.Rhs[0].(*ast.CompositeLit); !isCL {
+							continue
+						}
+						id, isId := as.Lhs[0].(*ast.Ident)
+						if !isId {
+							continue
+						}
+						// the Read call in this loop is on that identifier
+						for _, pc := range protoCallsOf(fs.Body, proto) {
+							if pc.nested && pc.method == "Read" {
+								if rid, ok := pc.call.Fun.(*ast.SelectorExpr).X.(*ast.Ident); ok && rid.Name == id.Name {
+									freshElem = true
+								}
+							}
+						}
+					}
+					return true
+				})
+				if !freshElem {
+					fail(fd.Pos(), ":"+name, "list elements are not decoded into a value that is fresh for each iteration (`elem := T{}` inside the loop): optional fields missing on the wire keep the previous element's value, so decode(encode(x)) != x")
+				}
 			default:
 				row.method = first.method
 			}
